@@ -721,6 +721,10 @@ func TestVerifC06Random(t *testing.T) {
 		}
 		c.Count("sequences", 1)
 		c.Count("equivocators_seen", len(rn.m.second))
+		if i < 2 {
+			c.Sample(map[string]any{"synthetic_case": i, "step": c04StepName(st), "threshold": T, "weights": weights, "votes": len(seq), "first_votes": c06SeqString(seq[:12]),
+				"emitted_at": rn.emitIdx, "equivocators": len(rn.m.second), "cut_at_assumption": cut})
+		}
 		c.Distinct(c04StepName(st) + "|" + rn.m.shape())
 	}
 	// (b)
